@@ -79,12 +79,27 @@ fn realise(d: i64, variant: u8) -> Option<(i64, i64, i64, i64)> {
             let et = st - rest;
             (st, et, std, dst)
         }
-        _ => {
+        4 => {
             // unbalanced split 1/3 : 2/3 with a fixed one-hour DST shift
             let rest = d - H;
             let st = clamp(rest / 3, tmax);
             let et = st - rest;
             (st, et, 0, H)
+        }
+        5 => {
+            // both times positive and at least one day (whole days common to both times), no offsets
+            let et = if d >= 0 { 2 * D } else { 2 * D - d };
+            (et + d, et, 0, 0)
+        }
+        6 => {
+            // both times negative and at most minus one day
+            let et = if d <= 0 { -2 * D } else { -2 * D - d };
+            (et + d, et, 0, 0)
+        }
+        _ => {
+            // both times beyond three days with a half-hour DST shift
+            let et = if d >= 0 { 3 * D + 1800 } else { 3 * D + 1800 - d };
+            (et + d - 1800, et, 0, 1800)
         }
     };
     let ok = st.abs() < WEEK && et.abs() < WEEK && std > OFF_LO && std < OFF_HI && dst > OFF_LO && dst < OFF_HI && (st - std) - (et - dst) == d;
@@ -119,6 +134,11 @@ pub fn run(args: &Args) -> i32 {
     let thorough = args.thorough();
     let dvals = d_values();
     let nvar: u8 = if args.digest_mode { 1 } else if thorough { 5 } else { 2 };
+    let mut variants: Vec<(u8, bool, bool)> = (0..nvar).map(|v| (v, false, true)).collect();
+    if !args.digest_mode {
+        // same-sign times of at least one day; the DST flags of the two types in every combination
+        variants.extend([(5, false, true), (6, false, true), (7, false, true), (0, true, false), (0, true, true), (0, false, false), (4, true, false)]);
+    }
     let days = tabs.days.clone();
     let nd = days.len();
     let impl_days: Vec<_> = days.iter().map(|&d| rule_day(d)).collect();
@@ -152,7 +172,8 @@ pub fn run(args: &Args) -> i32 {
                         let flip_c = c0 * D + d < 0 && c1 * D + d > 0;
                         let exp = !(flip_a || flip_b || flip_c);
                         // is this decision at a breakpoint (neighbouring d decides differently)?
-                        for v in 0..nvar {
+                        // (variant, is_dst flag of the standard type, of the daylight type): the decision depends on d only
+                        for &(v, fs, fd) in variants.iter() {
                             let (st, et, std, dst) = match realise(d, v) {
                                 Some(x) => x,
                                 None => {
@@ -161,12 +182,12 @@ pub fn run(args: &Args) -> i32 {
                                 }
                             };
                             tl.evals += 1;
-                            let got = AlternateTime::new(mk(std, false), mk(dst, true), impl_days[i], st as i32, impl_days[j], et as i32);
+                            let got = AlternateTime::new(mk(std, fs), mk(dst, fd), impl_days[i], st as i32, impl_days[j], et as i32);
                             let acc = match &got {
                                 Ok(_) => true,
                                 Err(TransitionRuleError::InconsistentRule) => false,
                                 Err(e) => {
-                                    rec.violation("decisions", json!({"kind":"cons","start":days[i].text(),"end":days[j].text(),"st":st,"et":et,"std":std,"dst":dst}), json!(if exp {"Ok"} else {"InconsistentRule"}), json!(format!("{e:?}")));
+                                    rec.violation("decisions", json!({"kind":"cons","start":days[i].text(),"end":days[j].text(),"st":st,"et":et,"std":std,"dst":dst,"std_is_dst":fs,"dst_is_dst":fd}), json!(if exp {"Ok"} else {"InconsistentRule"}), json!(format!("{e:?}")));
                                     continue;
                                 }
                             };
@@ -177,7 +198,7 @@ pub fn run(args: &Args) -> i32 {
                             }
                             tl.digest = tl.digest.wrapping_add(((i * nd + j) as u64).wrapping_mul(131).wrapping_add(di as u64) * (acc as u64 + 1));
                             if acc != exp {
-                                rec.violation("decisions", json!({"kind":"cons","start":days[i].text(),"end":days[j].text(),"st":st,"et":et,"std":std,"dst":dst}), json!({"accept": exp, "d": d, "flip_A": flip_a, "flip_B": flip_b, "flip_C": flip_c}), json!({"accept": acc}));
+                                rec.violation("decisions", json!({"kind":"cons","start":days[i].text(),"end":days[j].text(),"st":st,"et":et,"std":std,"dst":dst,"std_is_dst":fs,"dst_is_dst":fd}), json!({"accept": exp, "d": d, "flip_A": flip_a, "flip_B": flip_b, "flip_C": flip_c}), json!({"accept": acc}));
                             }
                         }
                         // cross-check the factorised oracle against the plain 400-year definition on a subset
@@ -200,7 +221,7 @@ pub fn run(args: &Args) -> i32 {
             tl
         })
         .reduce(Tally::default, Tally::merge);
-    rec.sub("decisions", json!({"day_pairs": nd * nd, "d_values": dvals.len(), "realisations_per_d": nvar, "evaluations": total.evals, "accepted": total.accepted, "refused": total.refused, "oracle_cross_checked_against_plain_definition": total.cross, "unrealisable_d_variant_combinations": unrealisable.load(std::sync::atomic::Ordering::Relaxed)}));
+    rec.sub("decisions", json!({"day_pairs": nd * nd, "d_values": dvals.len(), "realisations_per_d": variants.len(), "evaluations": total.evals, "accepted": total.accepted, "refused": total.refused, "oracle_cross_checked_against_plain_definition": total.cross, "unrealisable_d_variant_combinations": unrealisable.load(std::sync::atomic::Ordering::Relaxed)}));
 
     // window clauses
     let mut wn = 0u64;
@@ -290,7 +311,7 @@ pub fn run(args: &Args) -> i32 {
     let nontrivial = total.accepted.min(total.refused);
     rec.add(total.evals + wn, nontrivial);
     rec.digest("rulecons", total.digest);
-    rec.set_rule("every (start day, end day) pair over all 1151 notations x every d = k*86400+{-1,0,1} with |d|<=16d3h realisable inside the time/offset windows, each d realised in 2 (quick) / 5 (thorough) different (start time, end time, std, dst) splits; oracle = no sign flip of S(y)-E(y), E(y)-S(y+1), S(y)-E(y+1) over 409 consecutive model years (weak-inequality reading, I2). non-trivial = min(accepted, refused) decisions, i.e. the decisions on the minority side");
+    rec.set_rule("every (start day, end day) pair over all 1151 notations x every d = k*86400+{-1,0,1} with |d|<=16d3h realisable inside the time/offset windows, each d realised in 2 (quick) / 5 (thorough) different (start time, end time, std, dst) splits, plus three splits with both times on the same side of zero and at least a day, plus the four combinations of the two types' DST flags; oracle = no sign flip of S(y)-E(y), E(y)-S(y+1), S(y)-E(y+1) over 409 consecutive model years (weak-inequality reading, I2). non-trivial = min(accepted, refused) decisions, i.e. the decisions on the minority side");
     rec.set_exhaustive(true);
     rec.outcome("Ok");
     rec.outcome("InconsistentRule");
@@ -323,7 +344,8 @@ pub fn replay(case: &Value, args: &Args) -> i32 {
     let exp = window_ok && Timeline::build(&cyc, &r, 2000, 402).no_flip();
     let mut bad = false;
     for _ in 0..2 {
-        let got = guard(|| AlternateTime::new(mk(r.std_off, false), mk(r.dst_off, true), rule_day(sd), r.start_time as i32, rule_day(ed), r.end_time as i32).map(|_| ()));
+        let (fs, fd) = (case["std_is_dst"].as_bool().unwrap_or(false), case["dst_is_dst"].as_bool().unwrap_or(true));
+        let got = guard(|| AlternateTime::new(mk(r.std_off, fs), mk(r.dst_off, fd), rule_day(sd), r.start_time as i32, rule_day(ed), r.end_time as i32).map(|_| ()));
         println!("model accept={exp} impl={got:?}");
         if !matches!(&got, Ok(x) if x.is_ok() == exp) {
             bad = true;
